@@ -330,6 +330,30 @@ def custom(ctx):
             if case not in flagged and div <= 20:
                 failures.append(("oom", case, "allocation skeleton and code disagree: model predicts `%s`, C gives `%s`"
                                  % (mo.partition(" ->")[2].strip(), co.partition(" ->")[2].strip()), co))
+    # thorough: the same fault plans under AddressSanitizer + UBSan (invalid/double free,
+    # use after free, overflow on a recovery path); lines must equal the plain oom run
+    if ctx.tier == "thorough":
+        try:
+            ba, d = build_c_driver("oom", "-O1 -fsanitize=address,undefined -fno-omit-frame-pointer")
+            ctx.check.tmpdirs.append(d)
+            rca, aout, aerr = ctx.run_c(ba, cases, args=["--oom"], env={
+                "ASAN_OPTIONS": "detect_leaks=0:abort_on_error=1:handle_segv=0:handle_abort=0:allocator_may_return_null=1",
+                "UBSAN_OPTIONS": "print_stacktrace=0:halt_on_error=0"})
+            nbad = 0
+            if len(aout) != len(cout):
+                failures.append(("oom+asan", cases[0], "sanitised --oom run produced %d lines, plain run %d (rc=%s) %s"
+                                 % (len(aout), len(cout), rca, aerr[-300:]), ""))
+            for ca, co in zip(aout, cout):
+                if ca != co:
+                    nbad += 1
+                    if nbad <= 5:
+                        failures.append(("oom+asan", parse_out(co)[0], "under AddressSanitizer the call behaves differently: `%s` %s"
+                                         % (ca.partition(" ->")[2].strip(), re.findall(r"ERROR: AddressSanitizer: [^\n]*", aerr)[:2]), ca))
+            info["asan_lines_differing"] = nbad
+            info["asan_reports"] = len(re.findall(r"ERROR: AddressSanitizer", aerr))
+            info["ubsan_reports"] = sorted(set(re.findall(r"runtime error: [^\n]*", aerr)))[:5]
+        except RuntimeError as e:
+            info["asan"] = "sanitised oom build failed: %s" % str(e)[-200:]
     info["per_api"] = per_api
     info["fault_plans_run"] = plans
     info["allocations_per_call_histogram"] = sites
@@ -350,7 +374,8 @@ PARTS = {
                      "containers around 16/32/.../4096 members, ranges above 4096, run containers); each case once "
                      "without faults and once per k with the k-th allocation of the call failing; the C line "
                      "(nalloc/ret/rt/leak/obj) must equal the line predicted by the Coq allocation skeleton and satisfy "
-                     "the statement of C18 directly; non-trivial = runs in which the call allocates",
+                     "the statement of C18 directly; thorough tier repeats all plans under ASan+UBSan; "
+                     "non-trivial = runs in which the call allocates",
                 assumptions=[
                     "C side: single-failure plans only (k-th allocation fails), enumerated for the generated inputs; "
                     "the Coq theorems cover every plan (any subset of allocations failing) of the skeletons",
